@@ -60,7 +60,6 @@ KERNELS = [
     K("src_c03_done_stop", _S, _DONE + r".*?if \(const auto step_ok = [^;]*;\s*(.*?)\)\s*\{",
       [], [("converged", "bool"), ("step_ok", "bool")], "c03", _P),
     K("src_c03_done_status", _S, _DONE + r".*?state\.status\((.*?)\);",
-      [(r"solver_status::converged", "1"), (r"solver_status::failed", "2"), (r"solver_status::max_iters", "0"),
-       (r"state\.valid\(\)", "valid")],
-      [("converged", "bool"), ("valid", "bool")], "c03", _P),
+      [(r"solver_status::converged", "1"), (r"solver_status::failed", "2"), (r"solver_status::max_iters", "0")],
+      [("converged", "bool"), ("step_ok", "bool")], "c03", _P),   # repo 85997bc: (converged && step_ok)
 ]
